@@ -78,6 +78,11 @@ def generate(ctx):
 
 # ------------------------------------------------------------------------------------------------ helpers
 
+def W3():
+    from props import _c07_wave3
+    return _c07_wave3
+
+
 def _torch():
     import torch
     torch.set_num_threads(2)
@@ -248,6 +253,20 @@ def kernel_grid(tier, rng):
     g.append(("lcm", {"rank": 1, "seed": rng.getrandbits(20)}))
     g.append(("additive_structure", {"l": 1.0}))
     g.append(("product_structure", {"l": 1.0}))
+    # wave 3: ARD lengthscales that DIFFER between input dimensions, for every family that takes ard_num_dims
+    for l in (1e-1, 1.0, 10.0):
+        g.append(("rbf", {"l": l, "ard": True}))
+        g.append(("rq", {"l": l, "alpha": 1.0, "ard": True}))
+        g.append(("periodic", {"l": l, "p": 1.0, "ard": True}))
+        for nu in (0.5, 1.5, 2.5):
+            g.append(("matern", {"nu": nu, "l": l, "ard": True}))
+        g.append(("piecewise", {"q": 1, "l": l, "ard": True}))
+        g.append(("rbf_grad", {"l": l, "ard": True}))
+        g.append(("matern52_grad", {"l": l, "ard": True}))
+        g.append(("rbf_gradgrad", {"l": l, "ard": True}))
+        g.append(("rff", {"l": l, "seed": rng.getrandbits(20), "ard": True}))
+    g.append(("multitask", {"rank": 1, "seed": rng.getrandbits(20), "l": 1.0, "ard": True}))
+    g.append(("scale_rbf", {"s": 2.0, "l": 1.0, "ard": True}))
     return g
 
 
@@ -307,7 +326,8 @@ def build_kernel(fam, hp, d):
     elif fam == "rq":
         k = K.RQKernel(ard_num_dims=ard); k.lengthscale = _ls(hp, d); k.alpha = hp["alpha"]
     elif fam == "periodic":
-        k = K.PeriodicKernel(); k.lengthscale = hp["l"]; k.period_length = hp["p"]
+        k = K.PeriodicKernel(ard_num_dims=ard); k.lengthscale = _ls(hp, d)
+        k.period_length = hp["p"] if not ard else _ls({"l": hp["p"], "ard": True}, d) * 1.3
     elif fam == "cosine":
         k = K.CosineKernel(); k.period_length = hp["p"]
     elif fam == "piecewise":
@@ -327,7 +347,7 @@ def build_kernel(fam, hp, d):
         k = K.ConstantKernel(); k.constant = torch.tensor(hp["c"])
     elif fam == "rff":
         torch.manual_seed(hp["seed"])
-        k = K.RFFKernel(num_samples=7, num_dims=d); k.lengthscale = hp["l"]
+        k = K.RFFKernel(num_samples=7, num_dims=d, ard_num_dims=ard); k.lengthscale = _ls(hp, d)
     elif fam == "spectral_delta":
         torch.manual_seed(hp["seed"])
         k = K.SpectralDeltaKernel(num_dims=d, num_deltas=6); k.lengthscale = hp["l"]
@@ -336,18 +356,18 @@ def build_kernel(fam, hp, d):
         base.lengthscale = hp["l"]
         k = K.CylindricalKernel(num_angular_weights=3, radial_base_kernel=base)
     elif fam == "rbf_grad":
-        k = K.RBFKernelGrad(); k.lengthscale = hp["l"]
+        k = K.RBFKernelGrad(ard_num_dims=ard); k.lengthscale = _ls(hp, d)
     elif fam == "matern52_grad":
-        k = K.Matern52KernelGrad(); k.lengthscale = hp["l"]
+        k = K.Matern52KernelGrad(ard_num_dims=ard); k.lengthscale = _ls(hp, d)
     elif fam == "rbf_gradgrad":
-        k = K.RBFKernelGradGrad(); k.lengthscale = hp["l"]
+        k = K.RBFKernelGradGrad(ard_num_dims=ard); k.lengthscale = _ls(hp, d)
     elif fam == "polynomial_grad":
         k = K.PolynomialKernelGrad(power=hp["power"]); k.offset = hp["offset"]
     elif fam == "newton_girard":
         b = K.RBFKernel(ard_num_dims=d); b.lengthscale = hp["l"]
         k = K.NewtonGirardAdditiveKernel(b, num_dims=d)
     elif fam == "scale_rbf":
-        b = K.RBFKernel(); b.lengthscale = hp["l"]
+        b = K.RBFKernel(ard_num_dims=ard); b.lengthscale = _ls(hp, d)
         k = K.ScaleKernel(b); k.outputscale = hp["s"]
     elif fam == "sum":
         a = K.RBFKernel(); a.lengthscale = hp["l"]
@@ -364,7 +384,7 @@ def build_kernel(fam, hp, d):
         k.covar_factor.data = torch.randn(4, hp["rank"])
     elif fam == "multitask":
         torch.manual_seed(hp["seed"])
-        b = K.RBFKernel(); b.lengthscale = hp["l"]
+        b = K.RBFKernel(ard_num_dims=ard); b.lengthscale = _ls(hp, d)
         k = K.MultitaskKernel(b, num_tasks=2, rank=hp["rank"])
         k.task_covar_module.covar_factor.data = torch.randn(2, hp["rank"])
     elif fam == "lcm":
@@ -390,12 +410,15 @@ def out_per_input(fam, d):
             "multitask": 2, "lcm": 2}.get(fam, 1)
 
 
-def admissible(fam, n, d):
+MULTI_OUT_SIZES = [(3, 2), (4, 2), (3, 3)]      # extra (n, d) cells for the multi-output families (rows = n * outputs <= 24)
+
+
+def admissible(fam, n, d, cap=12):
     if fam == "cosine" and d != 1:
         return False
     if fam in ("newton_girard", "additive_structure", "product_structure") and d < 2:
         return False
-    return n * out_per_input(fam, d) <= 12
+    return n * out_per_input(fam, d) <= cap
 
 
 def geometries(n, d, rng):
@@ -450,6 +473,12 @@ def gram(fam, hp, Xk, d, mode="plain"):
             Kd = Kd if torch.is_tensor(Kd) else Kd.to_dense()
         except Exception:
             Kd = None
+        if Kd is not None and mode == "plain":
+            try:        # the other diag-mode path: the diagonal of the LAZILY evaluated kernel tensor
+                Kl = k(Xk).diagonal(dim1=-1, dim2=-2)
+                Kd = [("K(x,x,diag=True)", Kd), ("lazy K(x,x).diagonal()", Kl)]
+            except Exception:
+                pass
     return K, Kd, type(k).__name__
 
 
@@ -483,11 +512,16 @@ def float_screen(K, Kd, scale_ref=None, sym_tol=SYM_TOL):
         if not (bound[i, j] == 0 and S[i, j].abs() <= EIG_TOL * norm):
             sym.append(("correlation>1", f"|K[{i},{j}]| = {S[i, j].abs().item():.17g} > sqrt(K[{i},{i}] K[{j},{j}]) = "
                         f"{bound[i, j].item():.17g} (excess {rel:.2e})"))
-    if Kd is not None and Kd.shape == dg.shape:
-        dd = (K.diagonal() - Kd).abs().max().item()
-        info["diag_path_diff"] = dd
+    for dname, Kd1 in (Kd if isinstance(Kd, list) else ([("K(x,x,diag=True)", Kd)] if Kd is not None else [])):
+        if Kd1.shape != dg.shape:
+            continue
+        dd = (K.diagonal() - Kd1).abs().max().item()
+        info["diag_path_diff"] = max(dd, info.get("diag_path_diff", 0.0))
         if dd > DIAG_TOL * max(mx, 1e-300):
-            sym.append(("diag-mismatch", f"max|K(x,x).diagonal() - K(x,x,diag=True)| = {dd:.3e}"))
+            i = int((K.diagonal() - Kd1).abs().argmax())
+            sym.append(("diag-mismatch", f"max|K(x,x).to_dense().diagonal() - {dname}| = {dd:.3e} (entry {i}: dense {K.diagonal()[i].item()!r}, "
+                        f"diag mode {Kd1[i].item()!r})"))
+            break
     return sym, info
 
 
@@ -503,12 +537,18 @@ def gram_cases(ctx, drv, tier):
     fam_count, geom_count, cert_sent = {}, {}, 0
     worst = {}
     pending = []
+    cells = [(n, d, False) for (n, d) in sizes] + [(n, d, True) for (n, d) in (MULTI_OUT_SIZES if tier == "quick" else MULTI_OUT_SIZES + [(5, 2), (2, 3)])]
     for rep in range(reps):
-        for (n, d) in sizes:
-            G = geometries(n, d, rng)
+        for (n, d, multi_only) in cells:
+            G = geometries(max(n, 3), d, rng)
+            G = {k_: v_[:n] for k_, v_ in G.items()} if n < 3 else G
             for fam, hp in grid:
-                if not admissible(fam, n, d):
+                if multi_only and (out_per_input(fam, d) == 1 or not admissible(fam, n, d, cap=24)):
                     continue
+                if not multi_only and not admissible(fam, n, d):
+                    continue
+                if multi_only and not hp.get("ard") and rng.random() < 0.5:
+                    continue        # (shared-lengthscale copies of these cells: half of them)
                 for gname, X in G.items():
                     if fam in ("hamming", "index") and gname in ("near_coincident", "tiny_scale", "far_offset", "dup_and_near"):
                         continue
@@ -941,7 +981,10 @@ def run_exact_gp(ctx, drv, p, want_driver=True):
             prior = model(sx).covariance_matrix.clone()
         post_d = model(sx)
         post = post_d.covariance_matrix.clone()
-        marg = lik(post_d).covariance_matrix.clone()
+        marg_d = lik(post_d)
+        marg = marg_d.covariance_matrix.clone()
+        fails += W3().dist_consistency(post_d, f"exact GP {p['kernel']}/{p['flavour']}: posterior", f"exactgp-posterior:{p['kernel']}")
+        fails += W3().dist_consistency(marg_d, f"exact GP {p['kernel']}/{p['flavour']}: marginal", f"exactgp-marginal:{p['kernel']}")
         # the kernel blocks as the model evaluates them: K(tx,tx) by the prediction strategy; test rows against all
         # columns in one rectangular evaluation (DefaultPredictionStrategy.exact_prediction, eager branch)
         Ktt = model.covar_module(tx).to_dense()
@@ -955,7 +998,16 @@ def run_exact_gp(ctx, drv, p, want_driver=True):
     model_l, lik_l = _exact_model(p["kernel"], p["hp"], tx, ty, p["noise"])
     with torch.no_grad(), warnings.catch_warnings(), gpytorch.settings.max_eager_kernel_size(1):
         warnings.simplefilter("ignore")
-        post_lazy = model_l(sx).covariance_matrix.clone()
+        lazy_d = model_l(sx)
+        lazy_var = lazy_d.variance.clone()          # read before the dense matrix exists: the kernel's diag=True path
+        fails += W3().dist_consistency(lazy_d, f"exact GP {tag} max_eager_kernel_size(1): posterior through the lazily evaluated joint",
+                                       f"exactgp-posterior(lazy joint):{p['kernel']}", scale)
+        post_lazy = lazy_d.covariance_matrix.clone()
+    exc = (lazy_var - prior.diagonal()).max().item()
+    if exc > MONO_TOL * scale:
+        fails.append((f"exactgp-posterior(lazy joint)-variance-above-prior:{p['kernel']}",
+                      f"exact GP {tag} max_eager_kernel_size(1): a posterior variance exceeds the prior variance of the same point by {exc:.3e} "
+                      f"(scale {scale:.3e})"))
     sm, info = cov_screen(post_lazy, scale)
     for sym, detail in sm:
         mag = info.get("asym_rel", 0.0) if sym == "asymmetric" else max(abs(min(info.get("rel_min_eig", 0.0), 0.0)), EIG_TOL)
@@ -1092,6 +1144,7 @@ def posterior_checks(ctx, drv, model, lik, tx, sx, obs, tag, label, p, want_driv
         post = post_d.covariance_matrix.clone()
         var, sd = post_d.variance.clone(), post_d.stddev.clone()
         marg = lik(post_d).covariance_matrix.clone()
+        fails += W3().dist_consistency(post_d, f"{tag}: posterior", label + "-posterior")
         # reference blocks from the modules as they are NOW (no prediction-strategy caches involved)
         with gpytorch.settings.lazily_evaluate_kernels(False):
             Ktt = to_dense_(model.covar_module(tx))
@@ -1312,6 +1365,7 @@ def svgp_checks(ctx, drv, leaf, sx, tag, label, p, want_driver=True):
         qc = q.covariance_matrix.clone()
         var, sd = q.variance.clone(), q.stddev.clone()
         pc = lik(q).covariance_matrix.clone()
+        fails += W3().dist_consistency(q, f"{tag}: q(f)", label + "-q(f)")
         S = vd().covariance_matrix.clone()
         Kxx = model.covar_module(sx).to_dense()
         Kzz = model.covar_module(Z).to_dense()
@@ -1708,6 +1762,8 @@ def run_variational(ctx, drv, p, want_driver=True):
         q = model(X)
         qc = q.covariance_matrix.clone()
         pc = lik(q).covariance_matrix.clone()
+        fails += W3().dist_consistency(q, f"variational {p['strategy']}/{p['vdist']}/{p['kernel']}/{p['flavour']}: q(f)",
+                                       f"variational-q(f):{p['strategy']}/{p['vdist']}")
         S = vd().covariance_matrix.clone() if p["vdist"] != "delta" else torch.zeros(Z.shape[0], Z.shape[0])
         Kxx = model.covar_module(X).to_dense()
         Kzz = model.covar_module(Z).to_dense()
@@ -2112,6 +2168,9 @@ def correspondence(ctx, want_driver=True):
     section("nan_policy_py", lambda: nan_policy_cases(ctx, drv, ctx.tier))
     section("history_py", lambda: history_cases(ctx, drv, ctx.tier))
     section("fantasy_py", lambda: fantasy_cases(ctx, drv, ctx.tier))
+    section("accessor_histories_py", lambda: W3().accessor_cases(ctx, drv, ctx.tier))
+    section("ard_derivative_gp_py", lambda: W3().deriv_gp_cases(ctx, drv, ctx.tier))
+    section("variational_strategies_py", lambda: W3().vstrat_cases(ctx, drv, ctx.tier))
     section("dense_py", lambda: dense_cases(ctx, drv, ctx.tier))
     section("gram", lambda: gram_cases(ctx, drv, ctx.tier))
     drv.flush()
@@ -2193,6 +2252,12 @@ def replay(ctx, payload):
         return not run_history(ctx, None, case, want_driver=False)
     if kind == "variational":
         return not run_variational(ctx, None, case, want_driver=False)
+    if kind == "accessor_history":
+        return W3().replay_accessor(ctx, case)
+    if kind == "deriv_gp":
+        return not W3().run_deriv_gp(ctx, None, case, want_driver=False)
+    if kind == "vstrat":
+        return not W3().run_vstrat(ctx, None, case, want_driver=False)
     if kind == "variance":
         diag = [float(Fraction(x)) for x in case["diag"]]
         fails, _ = run_variance(ctx, None, diag, case.get("min_variance_double"), case["container"], want_driver=False)
